@@ -2,6 +2,8 @@ import Driver.Common
 import LiskVerif.Model.Codec
 import LiskVerif.Gen.Schemas
 import Driver.Lisk32
+import LiskVerif.Model.CodecEntry
+import LiskVerif.Model.Sha256
 
 namespace Driver.Codec
 open LiskVerif LiskVerif.Codec LiskVerif.Gen
@@ -15,6 +17,27 @@ def run1 (strict : Bool) (name hex : String) (nfc : NFC := asciiNFC) : String :=
     | .error e => "err " ++ e.name
   | _, _ => "bad-op"
 
+/-- the entry points `NewBlock` / `NewTransaction` / `NewBlockAsset` / `NewBlockHeader` (Model/CodecEntry) -/
+def entry (kind hex : String) : String :=
+  match Hex.decode? hex with
+  | none => "bad-op"
+  | some b =>
+    let T := allSchemas
+    let res (r : Except Err String) : String :=
+      match r with
+      | .ok s => "ok " ++ s
+      | .error e => "err " ++ e.name
+    match kind with
+    | "newtx" => res ((CodecEntry.newTransaction T asciiNFC Sha256.hash b).map fun p => Hex.encode p.2)
+    | "newasset" => res ((CodecEntry.newBlockAsset T asciiNFC b).map fun a =>
+        Hex.encode (Validators.encodeNamed T asciiNFC "blockchain.BlockAsset" a))
+    | "newheader" => res ((CodecEntry.newBlockHeader T asciiNFC Sha256.hash b).map fun p =>
+        Hex.encode p.2 ++ " " ++ Hex.encode (Validators.encodeNamed T asciiNFC "blockchain.BlockHeader" p.1))
+    | _ => res ((CodecEntry.newBlock T asciiNFC Sha256.hash b).map fun a =>
+        Hex.encode a.headerID ++ " " ++
+        (if a.txIDs.isEmpty then "-" else ",".intercalate (a.txIDs.map Hex.encode)) ++ " " ++
+        Hex.encode a.reencoded)
+
 def step (_ : Unit) (w : List String) : Unit × String :=
   let r : String :=
     match w with
@@ -26,6 +49,10 @@ def step (_ : Unit) (w : List String) : Unit × String :=
     | ["rt", name, hex] => run1 false name hex ++ " " ++ run1 true name hex
     | ["dec", name, hex] => run1 false name hex
     | ["decs", name, hex] => run1 true name hex
+    | ["newblock", hex] => entry "newblock" hex
+    | ["newtx", hex] => entry "newtx" hex
+    | ["newasset", hex] => entry "newasset" hex
+    | ["newheader", hex] => entry "newheader" hex
     | ["tolisk", _] | ["tobytes", _] | ["validate", _] => (Driver.Lisk32.step () w).2
     | ["uvarint", n] => match n.toNat? with
       | some n => Hex.encode (putUvarint n)
